@@ -313,7 +313,7 @@ def race_stage(ctx, tab, pairs, present, static_bad_rows):
                 tot["outcomes"][k] = tot["outcomes"].get(k, 0) + v
                 if v and res["switches"] > 0 and (k.startswith("sw:") or k.startswith("sw2:")):
                     nontrivial.add((seed, outlier, k))
-            pe = sum(1 for m in (res.get("internalFirst") or []) if "SlotChain.Entry" in m)
+            pe = res.get("internalEntry", 0)
             if res["deadlock"]:
                 ctx.violation("deadlock-%d.txt" % seed, "race15 (%s): goroutines did not finish within 30 s after stop — deadlock\nreplay: race %s\n%s"
                               % (tag, tag, res.get("stuck", "")[:8000]))
